@@ -16,10 +16,11 @@ extern "C" int create()
   // any one mkdir may be refused by the OS
   unsigned failAt = vf_pick(4);
   if(failAt) vf_fs_fail("mkdir", failAt, 13);
-  unsigned which = vf_pick(3);
-  const char* target = which == 0 ? "a/b/c" : which == 1 ? "a" : "a/b/";
+  unsigned which = vf_pick(6);
+  // also directly below the root, and the root itself (the model's working directory is the root)
+  const char* target = which == 0 ? "a/b/c" : which == 1 ? "a" : which == 2 ? "a/b/" : which == 3 ? "/a" : which == 4 ? "/a/b" : "/";
   bool ok = Directory::create(String::fromCString(target));
-  bool exists = vf_fs_kind(target) == 1 || (pre == 5 && which == 1);
+  bool exists = vf_fs_kind(target) == 1 || (pre == 5 && (which == 1 || which == 3));
   vf_assert(ok == exists, "Directory::create returns true exactly when the directory exists afterwards");
   if(ok && which == 0) vf_assert(vf_fs_kind("a") != 0 && vf_fs_kind("a/b") == 1, "Directory::create makes all missing parents");
   vf_reach("end");
@@ -46,6 +47,37 @@ extern "C" int unlink_tree()
   if(!ok) vf_assert(vf_fs_kind("t") == 1, "a failed unlink reports failure and the directory is still there");
   vf_assert(vf_fs_kind("out") == 1 && vf_fs_kind("out/keep") == 2 && vf_fs_kind("other") == 1 && vf_fs_kind("other/x") == 2, "nothing outside the tree is removed (symbolic links are not followed)");
   vf_assert(vf_fs_touched_outside("t") == 0, "every unlink/rmdir issued is for a path inside the given tree");
+  vf_reach("end");
+  return 0;
+}
+
+// File::rename: a failed rename reports failure and leaves no new file behind; a successful one moves the entry
+extern "C" int rename_()
+{
+  vf_fs_add("d", 1, 0);
+  unsigned fromKind = vf_pick(3);                 // absent / file / directory
+  unsigned toKind = vf_pick(3);                   // absent / file / (non-empty) directory
+  if(fromKind == 1) vf_fs_add("d/from", 2, 0); else if(fromKind == 2) { vf_fs_add("d/from", 1, 0); vf_fs_add("d/from/x", 2, 0); }
+  if(toKind == 1) vf_fs_add("d/to", 2, 0); else if(toKind == 2) { vf_fs_add("d/to", 1, 0); vf_fs_add("d/to/y", 2, 0); }
+  int fromK = fromKind == 0 ? 0 : fromKind == 1 ? 2 : 1, toK = toKind == 0 ? 0 : toKind == 1 ? 2 : 1;   // vf_fs_kind codes: 1 directory, 2 file
+  bool failIfExists = vf_pick(2);
+  unsigned refuse = vf_pick(2);
+  if(refuse) vf_fs_fail("rename", 1, 18);        // e.g. EXDEV: the OS refuses the rename itself
+  bool ok = File::rename(String("d/from"), String("d/to"), failIfExists);
+  vf_assert(vf_fs_open_fds() == 0, "no file descriptor is left open");
+  if(failIfExists && toKind != 0) vf_assert(!ok, "rename with failIfExists fails when the target exists");
+  if(fromKind == 0 || refuse) vf_assert(!ok, "renaming a missing file / a refused rename reports failure");
+  if(!ok)
+  {
+    vf_assert(vf_fs_kind("d/to") == toK, "a failed rename leaves no new file behind (target as before)");
+    vf_assert(vf_fs_kind("d/from") == fromK, "a failed rename leaves the source as it was");
+    if(toKind == 2) vf_assert(vf_fs_kind("d/to/y") == 2, "a failed rename leaves the target directory's content");
+  }
+  else
+  {
+    vf_assert(vf_fs_kind("d/from") == 0 && vf_fs_kind("d/to") == fromK, "a successful rename moves the entry");
+    if(fromKind == 2) vf_assert(vf_fs_kind("d/to/x") == 2, "a successful rename moves the directory's content");
+  }
   vf_reach("end");
   return 0;
 }
